@@ -297,10 +297,10 @@ func (w *world) callOnce(sig gSig, gc gCase, pick func(kind string) any) (observ
 		return rec, nil
 	}
 	rec.Err = callErr.Error()
+	// Evaler.Call hands back goFn.Call's error as it is (an exception only if a callee raised one)
 	reason := elv.Reason(callErr)
 	if reason == nil {
-		rec.O = "other"
-		return rec, nil
+		reason = callErr
 	}
 	if rec.Calls != 0 {
 		rec.O = "other"
